@@ -3,6 +3,7 @@ package notation
 import (
 	"fmt"
 	"reflect"
+	"strings"
 	"testing"
 
 	mod "github.com/craterdog/go-collection-framework/v4"
@@ -220,10 +221,82 @@ func execBad(c badCase, _ core.Source) (res core.Result) {
 	return
 }
 
+// ---------------------------------------------------------------- deep sentences
+
+// The grammar nests arbitrarily: two deeply nested items side by side in each of the seven type contexts.
+type deepDocCase struct {
+	Context string `json:"context"`
+	Depth   int    `json:"depth"` // nesting depth of the whole document
+}
+
+func execDeepDoc(c deepDocCase, _ core.Source) (res core.Result) {
+	deep := func(leaf string) string {
+		return strings.Repeat("[", c.Depth-1) + leaf + strings.Repeat("](List)", c.Depth-1)
+	}
+	text := "[" + deep("1") + ", " + deep("2") + "](" + c.Context + ")\n"
+	if c.Context == "Catalog" || c.Context == "Map" {
+		text = "[\"a\": " + deep("1") + ", \"b\": " + deep("2") + "](" + c.Context + ")\n"
+	}
+	var obj any
+	if p, payload := lib.Call(func() { obj = mod.ParseSource(text) }); p {
+		sig := "C11/rejected" + rejectClass(payload)
+		if strings.HasPrefix(fmt.Sprint(payload), "The maximum traversal depth was exceeded") {
+			sig = "C11/rejected/collator-depth-limit"
+		}
+		res.Violation = core.Violate(sig, "ParseSource rejected a sentence of the grammar (two items nested %d deep in a %s): %s", c.Depth-1, c.Context, lib.Short(payload))
+		return
+	}
+	// the leaves are where the text puts them: walk down the first and the second item
+	walkDown := func(x any) (int, any) {
+		depth := 0
+		for {
+			l, ok := x.(col.ListLike[any])
+			if !ok || l.GetSize() != 1 {
+				return depth, x
+			}
+			x = l.GetValue(1)
+			depth++
+		}
+	}
+	var items []any
+	switch t := obj.(type) {
+	case col.Sequential[any]:
+		items = t.AsArray()
+	case col.Sequential[col.AssociationLike[any, any]]:
+		for _, a := range t.AsArray() {
+			items = append(items, a.GetValue())
+		}
+	}
+	if len(items) != 2 {
+		res.Violation = core.Violate("C11/deep/wrong-meaning", "a %s of two items nested %d deep parsed to %d items", c.Context, c.Depth-1, len(items))
+		return
+	}
+	leaves := map[any]bool{}
+	for _, it := range items {
+		d, leaf := walkDown(it)
+		if d != c.Depth-1 {
+			res.Violation = core.Violate("C11/deep/wrong-meaning", "an item written %d levels deep in a %s was parsed %d levels deep", c.Depth-1, c.Context, d)
+			return
+		}
+		leaves[leaf] = true
+	}
+	if !leaves[int64(1)] || !leaves[int64(2)] {
+		res.Violation = core.Violate("C11/deep/wrong-meaning", "the leaves 1 and 2 of a deep %s came back as %v", c.Context, leaves)
+		return
+	}
+	res.NonTrivial = true
+	res.Classes = append(res.Classes, "context-"+c.Context)
+	return
+}
+
 func TestC11(t *testing.T) {
 	r := core.Begin(t, "C11")
 	defer r.End()
 	core.DFS(r, core.Check[docCase]{Name: "small-derivations", Gen: genDoc(true, 1, 2, r.N(1, 2)), Exec: execDoc, NoJournal: true}, 0)
 	core.Rapid(r, core.Check[docCase]{Name: "random-derivations", Gen: genDoc(false, 3, 26), Exec: execDoc}, r.N(3000, 12000))
 	core.DFS(r, core.Check[badCase]{Name: "unrepresentable-literals", Gen: genBad, Exec: execBad}, 0)
+	deepDepths := []int{2, 8, 9, 16, 17, 18, 19, 40, r.N(100, 300)}
+	core.DFS(r, core.Check[deepDocCase]{Name: "deep-sentences", Gen: func(s core.Source) deepDocCase {
+		return deepDocCase{Context: core.Pick(s, []string{"Array", "List", "Set", "Stack", "Queue", "Catalog", "Map"}, "context"), Depth: deepDepths[s.Choose(len(deepDepths), "depth")]}
+	}, Exec: execDeepDoc}, 0)
 }
